@@ -1,6 +1,7 @@
 """C18 -- GeoJSON read/write is faithful to the feature collection."""
 import ast
-from ..common import calls_in, norm, GEO, kw
+from ..facts import facts_at
+from ..common import precedes, calls_in, norm, GEO, kw
 from ..model import AnalysisError, body_nodes
 from ..signatures import name_uses
 from ..dataflow import defs_reaching, comprehension_binding
@@ -161,7 +162,7 @@ def check(ctx):
     ctx.ob("SIB-16", r, norm(meta[0]) if meta else "data.metadata = raw", meta[0] if meta else r.node, ok,
            "metadata is the raw object minus features" if ok else "metadata is not taken from the raw object", nontrivial=False)
     if meta and dels:
-        ok = dels[0].lineno < meta[0].lineno
+        ok = precedes(r, dels[0], meta[0])
         ctx.ob("SIB-16", r, "features removed before metadata is stored", meta[0], ok,
                "order is remove-then-store" if ok else "metadata is stored before features are removed", nontrivial=False)
     # ------------------------------------------------------------------ FILL
@@ -171,15 +172,30 @@ def check(ctx):
     srcs = {norm(l.iter) for l in floops}
     geo = [n for n in body_nodes(r.node) if isinstance(n, ast.Assign) and isinstance(n.targets[0], ast.Subscript)
            and isinstance(n.targets[0].slice, ast.Constant) and n.targets[0].slice.value == "geometry"]
-    gsrc = {norm(g.iter) for n in geo for c in ast.walk(n.value) if isinstance(c, ast.ListComp) for g in c.generators}
-    ok = len(srcs | gsrc) == 1 and bool(geo)
+    # elements of the geometry column, whether it is a comprehension or a list filled in a loop
+    from ..forms import contributions
+    gcontrib = []
+    for n in geo:
+        v = n.value
+        if isinstance(v, ast.ListComp):
+            gcontrib.append({"value": v.elt, "iter": v.generators[0].iter, "ifs": [norm(c) for g in v.generators for c in g.ifs],
+                             "target": v.generators[0].target, "node": n})
+        elif isinstance(v, ast.Name):
+            for x in contributions(r, v.id, n):
+                if x.get("whole"):
+                    gcontrib.append({"value": x["value"], "iter": None, "ifs": ["?"], "target": None, "node": x["node"]})
+                    continue
+                fx = [t for k, t in facts_at(r, x["node"]) if k in ("T", "F") and not t.startswith("iter:")]
+                gcontrib.append({"value": x["value"], "iter": x["iter"], "ifs": fx, "target": x["target"], "node": x["node"]})
+    gsrc = {norm(x["iter"]) for x in gcontrib if x["iter"] is not None}
+    ok = len(srcs | gsrc) == 1 and bool(geo) and bool(gcontrib) and all(x["iter"] is not None for x in gcontrib)
     ctx.ob("FILL", r, f"feature sequences {sorted(srcs | gsrc)}", geo[0] if geo else r.node, ok,
            "properties and geometry are read from the same feature sequence, in file order" if ok else
            "properties and geometry iterate different sequences (or in different order): rows are misaligned",
            clause="one row per feature in file order")
     if geo:
-        comps = [c for c in ast.walk(geo[0].value) if isinstance(c, ast.ListComp)]
-        ok = bool(comps) and not comps[0].generators[0].ifs and norm(comps[0].elt).endswith(".geometry")
+        ok = len(gcontrib) == 1 and not gcontrib[0]["ifs"] and gcontrib[0]["target"] is not None \
+            and norm(gcontrib[0]["value"]) == f"{norm(gcontrib[0]['target'])}.geometry"
         ctx.ob("FILL", r, norm(geo[0]), geo[0], ok, "every feature's geometry object is kept unchanged (null included)" if ok else
                "geometries are filtered or transformed while reading", clause="the geometry objects unchanged in a geometry column")
     sd = [c for f, c in calls_in(r) if isinstance(c.func, ast.Attribute) and c.func.attr == "setdefault"]
